@@ -136,6 +136,13 @@ fn main() {
                 let p = prop.to_string();
                 let res = std::panic::catch_unwind(move || match p.as_str() {
                     "C08" => c08::expand(&l2),
+                    "C10" => {
+                        if l2.starts_with("KAN ") {
+                            kan::expand(&l2)
+                        } else {
+                            l2.clone()
+                        }
+                    }
                     "KALL" | "C01" | "C02" | "C07" | "C14" | "C18" => kan::expand(&l2),
                     "C04" | "LALL" | "C05" | "C06" | "C17" | "C08" | "C09" => lay::expand(&l2),
                     _ => l2.clone(),
